@@ -1,1 +1,332 @@
-//! C01 - not built yet
+//! C01 - HLSL export preserves the meaning of every accepted program.
+//!
+//! Reference-model monitor: every generated program is type checked, every callable function is
+//! executed by the reference interpreter `irexec` on the source IR (ground truth: RSSL's typed
+//! semantics, evaluated left-to-right and right-to-left, undefined samples discarded), then the
+//! emitted HLSL (DirectX and Vulkan flavour) is read back and the same function is executed on the
+//! same arguments; return value, out/inout parameters and static globals must be bit identical.
+
+use crate::gen::prog;
+use crate::json::Json;
+use crate::oracle::diffexec::{self, Truth};
+use crate::oracle::irexec::Exec;
+use crate::oracle::sample;
+use crate::report::{Ctx, Report};
+use crate::rng::{hash_str, Rng};
+use crate::rs::{self, Front, Mode, Opts, Outcome, Tgt};
+use crate::CheckDef;
+
+pub fn def() -> CheckDef {
+    CheckDef {
+        id: "C01",
+        salt: 0xC01,
+        rule: "typed random programs of the executable, resource-free subset (gen::prog: scalars incl. half/double, vectors, structs with \
+               methods, arrays, enums, static/static const globals, all statement forms, in/out/inout/default parameters, overloads, function \
+               templates, namespaces, casts, swizzles, all operators, ternary, comma, pure math intrinsics) plus a directed table of \
+               (outer operator, inner operator, side) and unary-chain shapes; every callable function x 12 argument vectors (boundary + random \
+               values) is executed on the source IR and on the re-read emitted HLSL for both flavours. evaluations = (function, argument \
+               vector, flavour) samples compared; distinct_nontrivial = distinct accepted program texts with at least one defined, compared sample",
+        assumptions: &[
+            "the reference interpreter irexec implements RSSL's typed semantics (DESIGN.md appendix A); undefined/unspecified behaviour traps and the sample is discarded",
+            "the emitted HLSL is given meaning by rssl's own front end + irexec (oracle iii of DESIGN §5 C01): a fault that the front end repeats identically when reading the text back is not visible here; C09 checks the printer/parser pair on its own",
+            "transcendental kernels are shared by both sides: only which intrinsic is called with which arguments is checked",
+        ],
+        min_distinct: (400, 10_000),
+        deadline_s: (90.0, 900.0),
+        run,
+        replay,
+    }
+}
+
+pub const FLAVOURS: [Tgt; 2] = [Tgt::Dx, Tgt::Vk];
+
+/// Examine one program text: returns true when at least one sample was compared
+pub fn examine_program(text: &str, origin: &str, seed: u64, report: &mut Report) -> bool {
+    let (src_ir, _ast) = match rs::front_text(text, true) {
+        Front::Ok((ast, Some(ir))) => (ir, ast),
+        Front::Ok(_) => return false,
+        Front::Diag(d) => {
+            report.count("program:rejected");
+            if std::env::var("VERIF_DEBUG").is_ok() {
+                eprintln!("=== program rejected ({}): {}", origin, d);
+            }
+            let first = d.lines().next().unwrap_or("");
+            let msg = first.splitn(4, ':').last().unwrap_or(first).trim();
+            let class: String = msg.split(|c: char| c == '\'' || c == '`' || c == '(').next().unwrap_or(msg).chars().take(48).collect();
+            report.count(&format!("rejected:{}", class.trim()));
+            if report.counters.get("rejected_samples_kept").copied().unwrap_or(0) < 3 {
+                report.count("rejected_samples_kept");
+                report.notes.push(format!("example rejected program ({}): {}", origin, first));
+            }
+            return false;
+        }
+        Front::Panic(c) => {
+            // a panic of the front end is C08's business; not evidence about meaning preservation
+            report.count("program:front-end-panic");
+            report.count(&format!("skipped:panic:{}", c.signature()));
+            return false;
+        }
+    };
+    report.count("program:accepted");
+    let functions = diffexec::callable_functions(&src_ir);
+    if functions.is_empty() {
+        report.count("program:no-callable-function");
+        return false;
+    }
+    let mut compared_any = false;
+    for flavour in FLAVOURS {
+        let out = rs::compile_text(text, &Opts::new(flavour, Mode::NoPipeline));
+        let emitted = match &out {
+            Outcome::Ok(p) => p[0].source.clone(),
+            Outcome::Diag(d) => {
+                report.count("export:diagnostic");
+                report.count(&format!("export-diag:{}", d.lines().next().unwrap_or("").chars().take(60).collect::<String>()));
+                continue;
+            }
+            Outcome::Panic(c) => {
+                report.count(&format!("skipped:export-panic:{}", c.signature()));
+                continue;
+            }
+            Outcome::Budget { .. } => {
+                report.count("skipped:budget");
+                continue;
+            }
+        };
+        let out_ir = match rs::front_text(&emitted, true) {
+            Front::Ok((_, Some(ir))) => ir,
+            Front::Ok(_) => continue,
+            Front::Diag(d) => {
+                // C04 owns "emitted HLSL is accepted"; here the sample cannot be evaluated
+                report.count("skipped:emitted-text-rejected");
+                if std::env::var("VERIF_DEBUG").is_ok() {
+                    eprintln!("=== emitted text rejected ({}): {}", origin, d);
+                }
+                report.count(&format!("emitted-rejected:{}", d.lines().next().unwrap_or("").splitn(4, ':').last().unwrap_or("").trim().chars().take(50).collect::<String>()));
+                continue;
+            }
+            Front::Panic(c) => {
+                report.count(&format!("skipped:reread-panic:{}", c.signature()));
+                continue;
+            }
+        };
+        let out_functions = diffexec::callable_functions(&out_ir);
+        for (fi, (name, id)) in functions.iter().enumerate() {
+            let Some((_, out_id)) = out_functions.iter().find(|(n, _)| n == name) else {
+                report.count("skipped:function-not-found-by-name");
+                continue;
+            };
+            let imp = src_ir.function_registry.get_function_implementation(*id).as_ref().unwrap();
+            let proto = match Exec::new(&src_ir) {
+                Ok(e) => e,
+                Err(t) => {
+                    report.count(&format!("skipped:global-init:{}", diffexec::trap_class(&t)));
+                    break;
+                }
+            };
+            for k in 0..12u64 {
+                let mut rng = Rng::for_case(seed, hash_str(name) ^ (fi as u64) << 8, k);
+                let calm = k % 3 != 0;
+                let mut args = Vec::new();
+                let mut ok = true;
+                for p in &imp.params {
+                    match sample::value_for(&proto, p.param_type.type_id, &mut rng, calm) {
+                        Some(v) => args.push(v),
+                        None => {
+                            ok = false;
+                            break;
+                        }
+                    }
+                }
+                if !ok {
+                    report.count("skipped:parameter-type-not-modelled");
+                    break;
+                }
+                let truth = match diffexec::ground_truth(&src_ir, *id, &args) {
+                    Truth::Defined(o) => o,
+                    Truth::Skipped(why) => {
+                        report.count(&format!("sample-skipped:{}", why));
+                        continue;
+                    }
+                };
+                let got = match diffexec::run(&out_ir, *out_id, &args, false, 400_000) {
+                    Ok(o) => o,
+                    Err(t) => {
+                        // the source is defined on this sample but the emitted program is not: meaning changed
+                        let class = diffexec::trap_class(&t);
+                        if class.starts_with("unsupported:") {
+                            report.count(&format!("sample-skipped:emitted-{}", class));
+                            continue;
+                        }
+                        report.evaluations += 1;
+                        let w = witness(seed, text, origin, flavour, name, &args, &emitted, &truth.describe(), &format!("emitted program traps: {}", class));
+                        report.violation(&format!("emitted-undefined:{}", class), &format!("function {} is defined on the source but the emitted {} traps ({})", name, flavour.name(), class), w);
+                        continue;
+                    }
+                };
+                report.evaluations += 1;
+                compared_any = true;
+                report.count(&format!("compared:{}", flavour.name()));
+                if let Some(d) = truth.diff(&got) {
+                    let w = witness(seed, text, origin, flavour, name, &args, &emitted, &truth.describe(), &got.describe());
+                    report.violation("meaning-changed", &format!("function {} computes a different result after export to {}: {}", name, flavour.name(), d), w);
+                }
+            }
+        }
+    }
+    compared_any
+}
+
+fn witness(arg_seed: u64, text: &str, origin: &str, flavour: Tgt, function: &str, args: &[crate::oracle::val::Value], emitted: &str, expected: &str, got: &str) -> Json {
+    Json::obj()
+        .set("origin", origin)
+        .set("arg_seed", Json::Str(arg_seed.to_string()))
+        .set("program", text)
+        .set("flavour", flavour.name())
+        .set("function", function)
+        .set("arguments", Json::Arr(args.iter().map(|a| Json::str(format!("{}", a))).collect()))
+        .set("source_semantics", expected)
+        .set("emitted_semantics", got)
+        .set("emitted", emitted)
+}
+
+/// Directed shapes: every (outer, inner, side) operator pair and unary chains over small typed leaves
+pub fn directed_programs() -> Vec<String> {
+    let bin_int = ["+", "-", "*", "/", "%", "<<", ">>", "&", "|", "^", "<", "<=", ">", ">=", "==", "!=", "&&", "||"];
+    let mut out = Vec::new();
+    let mut body = String::new();
+    let mut n = 0;
+    let mut flush = |body: &mut String, out: &mut Vec<String>| {
+        if !body.is_empty() {
+            out.push(std::mem::take(body));
+        }
+    };
+    // binary-in-binary, both sides, int operands (division guarded by | 1 would change the shape: operands are chosen non-zero instead)
+    for outer in bin_int {
+        for inner in bin_int {
+            for side in 0..2 {
+                let e = if side == 0 { format!("(a {} b) {} c", inner, outer) } else { format!("a {} (b {} c)", outer, inner) };
+                body.push_str(&format!("int t{}(int a, int b, int c) {{ return (int)({}); }}\n", n, e));
+                n += 1;
+                if n % 40 == 0 {
+                    flush(&mut body, &mut out);
+                }
+            }
+        }
+    }
+    flush(&mut body, &mut out);
+    // unary chains and unary next to binary
+    let un = ["-", "+", "~", "!"];
+    for a in un {
+        for b in un {
+            body.push_str(&format!("int u{}(int x) {{ return (int)({}({}x)); }}\n", n, a, b));
+            n += 1;
+            body.push_str(&format!("int u{}(int x, int y) {{ return (int)(x - ({}y)); }}\n", n, b));
+            n += 1;
+            body.push_str(&format!("int u{}(int x, int y) {{ return (int)(x + ({}y)); }}\n", n, b));
+            n += 1;
+            for c in un {
+                body.push_str(&format!("int u{}(int x) {{ return (int)({}({}({}x))); }}\n", n, a, b, c));
+                n += 1;
+            }
+        }
+    }
+    flush(&mut body, &mut out);
+    // increments next to signs, ternary/assignment/comma nesting
+    let misc = [
+        "int m0(int x) { int y = x; return -(--y); }",
+        "int m1(int x) { int y = x; return +(++y); }",
+        "int m2(int x) { int y = x; return -(y--); }",
+        "int m3(int x) { int y = x; return (y++) + (+x); }",
+        "int m4(int x, int y) { return x - (-y); }",
+        "int m5(int x, int y) { return x + (+y); }",
+        "int m6(int x, int y) { int z = 0; return x > 0 ? (z = y) : x; }",
+        "int m7(int x, int y) { int z = 0; return (x > 0 ? y : x) + z; }",
+        "int m8(int x, int y) { return (x, y); }",
+        "int m9(int x, int y) { int z; z = (x, y); return z; }",
+        "int m10(int x, int y, int z) { return x > 0 ? y : z > 0 ? x : y; }",
+        "int m11(int x, int y, int z) { return (x > 0 ? y : z) > 0 ? x : y; }",
+        "int m12(int x) { return (int)(float)x; }",
+        "float m13(int x) { return (float)x / 2; }",
+        "float m14(int x) { return (float)(x / 2); }",
+        "uint m15(uint x) { return x >> 1u << 1u; }",
+        "uint m16(uint x) { return x >> (1u << 1u); }",
+        "int m17(int x, int y) { return x * (y + 1) - x * y + 1; }",
+        "int m18(int x, int y) { return -x * y; }",
+        "int m19(int x, int y) { return -(x * y); }",
+        "float m20(float x) { return -(-x); }",
+        "float m21(float x) { return - -x; }",
+        "int m22(int x) { return ~(~x); }",
+        "bool m23(bool b) { return !(!b); }",
+        "int m24(int x) { int y = x; y = -y; y = - -y; return y; }",
+        "float m25(float x) { return 1.0f - -1.0f * x; }",
+        "int m26(int x) { return 1 - -1; }",
+        "int m27(int x) { return -2147483647 - 1 + x; }",
+        "float m28(float x) { return x * 0.0031308f + 0.055f; }",
+        "float m29(float x) { return x + 16777217.0f; }",
+        "float m30(float x) { return x * 1e-7f; }",
+        "half m31(half x) { return x + 2.0h; }",
+        "double m32(double x) { return x + 1.0L; }",
+        "double m33(double x) { return x * 0.1L; }",
+        "uint m34(uint x) { return x + 4294967295u; }",
+        "int m35(int x) { return x + 0x7FFFFFFF; }",
+        "float m36(int x) { return x + 0.5; }",
+        "int m37(int x) { int a[3] = { 1, 2, 3 }; return a[((uint)x) % 3u] - -a[0]; }",
+    ];
+    let mut chunk = String::new();
+    for (i, m) in misc.iter().enumerate() {
+        chunk.push_str(m);
+        chunk.push('\n');
+        if i % 10 == 9 {
+            out.push(std::mem::take(&mut chunk));
+        }
+    }
+    if !chunk.is_empty() {
+        out.push(chunk);
+    }
+    out
+}
+
+pub fn generated_program(seed: u64, index: u64) -> (String, Vec<&'static str>) {
+    let mut rng = Rng::for_case(seed, 0x9e01, index);
+    let mut cfg = prog::Config::default();
+    if index % 4 == 0 {
+        cfg.rich = false;
+    }
+    let p = prog::generate(&mut rng, cfg);
+    (p.render(), p.features)
+}
+
+fn run(ctx: &Ctx) -> Report {
+    let directed = directed_programs();
+    let n_generated = ctx.tier.pick(4_000, 150_000);
+    let n = directed.len() as u64 + n_generated;
+    let seed = ctx.seed;
+    crate::par::run_cases(ctx, n, |index, report| {
+        let (text, origin, features) = if (index as usize) < directed.len() {
+            (directed[index as usize].clone(), format!("directed:{}", index), vec!["directed-operator-table"])
+        } else {
+            let gi = index - directed.len() as u64;
+            let (t, f) = generated_program(seed, gi);
+            (t, format!("generated:{}", gi), f)
+        };
+        let compared = examine_program(&text, &origin, seed ^ index, report);
+        if compared {
+            report.distinct(hash_str(&text));
+            for f in features {
+                report.count(&format!("feature:{}", f));
+            }
+            if report.want_sample() && index % 7 == 3 {
+                report.sample(Json::obj().set("origin", origin).set("program", text));
+            }
+        }
+    })
+}
+
+fn replay(ctx: &Ctx, witness: &Json) -> Report {
+    let mut report = Report::new();
+    let text = witness.get_str("program").unwrap_or("");
+    // the recorded argument seed reproduces exactly the argument vectors of the original run
+    let seed = witness.get_str("arg_seed").and_then(|s| s.parse::<u64>().ok()).unwrap_or(ctx.seed);
+    examine_program(text, "replay", seed, &mut report);
+    report
+}
